@@ -32,7 +32,7 @@ ASSUMPTIONS = [
     'errstate (the statement scopes the reactions profile only)',
 ]
 ANCHORS = ['ErrorProfile.test', 'ErrorProfile._handle_error', 'seterr', 'geterr', 'seterrcall', 'geterrcall', 'errcheck', 'errstate']
-REQUIRED = ['steps_checked', 'errstate_decorated_calls',
+REQUIRED = ['refused_calls_naming_all', 'steps_checked', 'errstate_decorated_calls',
             'errstate_exception_exits', 'refused_calls',
             'reaction_raise', 'reaction_ignore', 'reaction_warn',
             'reaction_print', 'reaction_call', 'reaction_clean_inputs']
@@ -55,9 +55,19 @@ MSG = {
 # ------------------------------------------------------------------ programs
 _K2 = ['empty', 'obsdup']
 _S3 = ['raise', 'ignore', 'warn']
+BAD_FORMS = [{'all': 'raises'}, {'all': 'Raise'}, {'all': ''},
+             {'all': None}, {'all': 1}, {'all': 'warn ', 'empty': 'raise'},
+             {'empty': 'warn', 'all': 'bogus'},
+             {'all': 'warn', 'nosuch': 'raise'}, {'ALL': 'raise'},
+             {'Empty': 'raise'}, {'empty': None}, {'empty': 'RAISE'},
+             {'empty': ' raise'}, {'obsdup': 'call', 'sampdup': 'Call'},
+             {'all': 'print', 'obsdup': 'printf'}, {'empty ': 'raise'},
+             {'obsmdsize': 'ignore', 'sampmdsize': 'ignored'},
+             {'all': 'call', 'sampsize ': 'call'}]
 ATOMS = ([('seterr', k, s) for k in _K2 for s in _S3] +
          [('seterr_all', s) for s in _S3] +
-         [('badkind',), ('badstate',), ('mixed',),
+         [('badall',), ('all+badkind',),
+          ('badkind',), ('badstate',), ('mixed',),
           ('setcall', 'empty'), ('setcall', 'obsdup')])
 WRAPS = [None] + [(k, s, ex) for (k, s) in
                   [('empty', 'raise'), ('obsdup', 'ignore'), ('all', 'warn')]
@@ -153,18 +163,32 @@ def _exec(ctx, err, model, step, prog, depthlog):
         err.seterr(all=step[1])
         for k in KINDS:
             model.state[k] = step[1]
-    elif op in ('badkind', 'badstate', 'mixed', 'mixed2'):
+    elif op in ('badkind', 'badstate', 'mixed', 'mixed2', 'badall',
+                'all+badkind', 'all+badstate', 'badform'):
         kw = {'badkind': {'nosuchkind': 'raise'},
               'badstate': {'empty': 'explode'},
               'mixed': {'empty': 'warn', 'zzz_nosuch': 'raise'},
-              'mixed2': {'obsdup': 'print', 'sampdup': 'bogus'}}[op]
+              'mixed2': {'obsdup': 'print', 'sampdup': 'bogus'},
+              'badall': {'all': 'raises'},
+              'all+badkind': {'all': 'warn', 'nosuchkind': 'raise'},
+              'all+badstate': {'all': 'ignore', 'empty': 'explode'}}.get(op)
+        if op == 'badform':
+            # step[1] picks one of many near-miss spellings
+            kw = BAD_FORMS[step[1] % len(BAD_FORMS)]
+        via = step[2] if len(step) > 2 else 'seterr'
         try:
-            err.seterr(**kw)
+            if via == 'seterr':
+                err.seterr(**kw)
+            else:
+                with err.errstate(**kw):
+                    pass
         except Exception:
             ctx.count('refused_calls')
+            if 'all' in kw:
+                ctx.count('refused_calls_naming_all')
         else:
-            raise Violation('C20/not-refused', 'seterr(**%r) was accepted; '
-                            'program=%r' % (kw, prog))
+            raise Violation('C20/not-refused', '%s(**%r) was accepted; '
+                            'program=%r' % (via, kw, prog))
     elif op == 'setcall':
         f = _cb('%s-%d' % (step[1], ctx.counters.get('steps_checked', 0)))
         old = err.seterrcall(step[1], f)
@@ -262,7 +286,8 @@ def _exec(ctx, err, model, step, prog, depthlog):
 def _is_nontrivial(prog):
     for s in prog:
         if s[0] in ('badkind', 'badstate', 'mixed', 'mixed2', 'setcall_bad',
-                    'errstate_bad'):
+                    'errstate_bad', 'badall', 'all+badkind', 'all+badstate',
+                    'badform'):
             return True
         if s[0] == 'errstate' and (s[3] == 'raise' or _is_nontrivial(s[2])):
             return True
@@ -295,8 +320,14 @@ def _rand_prog(r, maxlen, depth=0):
         elif x < .6:
             prog.append(('seterr_all', r.choice(STATES)))
         elif x < .8:
-            prog.append((r.choice(['badkind', 'badstate', 'mixed', 'mixed2',
-                                   'setcall_bad', 'errstate_bad']),))
+            if r.random() < .5:
+                prog.append(('badform', r.randrange(len(BAD_FORMS)),
+                             r.choice(['seterr', 'errstate'])))
+            else:
+                prog.append((r.choice(['badkind', 'badstate', 'mixed',
+                                       'mixed2', 'setcall_bad',
+                                       'errstate_bad', 'badall',
+                                       'all+badkind', 'all+badstate']),))
         else:
             prog.append(('setcall', r.choice(KINDS)))
     return prog
